@@ -275,7 +275,10 @@ def env_stream(ctx, rep, binpath, n):
                 if rerr or len(ref) != 1:
                     res["errors"].append("reference failed: %s" % rerr)
                     continue
-                if (got[1], got[2]) != (ref[0][1], ref[0][2]):
+                rank = {"off": 0, "error": 1, "warn": 2, "info": 3, "debug": 4, "trace": 5}
+                # deliveries must be exactly the fresh filter's; the global max level may only be too HIGH (an unrelated collector
+                # that came and went leaves it up), never below what the fresh filter needs
+                if got[1] != ref[0][1] or rank.get(got[2].lower(), -1) < rank.get(ref[0][2].lower(), 9):
                     last = next((x for x in reversed(steps[:j]) if x[0] in ("modify", "reload", "init")), None)
                     res["diffs"].append({"after_step": list(last) if last else None, "probe_thread": st[1], "directives": cur,
                                          "observed": got[1], "observed_max": got[2], "fresh_filter": ref[0][1], "fresh_max": ref[0][2]})
